@@ -216,6 +216,34 @@ def run(ctx):
                 s3.violate(inp, (how, name, pos, stmt), rep, "the file API does not locate the error (or reports another kind)")
             elif not str(rep[1]).endswith(name) or rep[2] != pos or rep[4] != stmt or (how == "scan" and rep[3] != col):
                 s3.violate(inp, (name, pos, col if how == "scan" else None, stmt), rep[1:], "file / line / column / quoted text reported through the file API differ from the statement in the file")
-        return [s, s2, s3]
+        # the command line with -D definitions: locations still refer to the lines of the user's file
+        s4 = core.Stream("S4-cli-defines", "an erroneous statement at a known line of a file assembled by the x816 command line with 0..3 -D NAME=VALUE definitions (used or unused by the program), both output formats: the reported file, zero-based line, column and quoted text are those of the statement in the user's file, whatever was defined on the command line")
+        for i in range(10 if tier == "quick" else 120):
+            kind, stmt, col, how = rng.choice([e for e in ERRS if e[0] not in ("unterminated-string-backslash",)])
+            ndef = rng.choice([0, 1, 2, 3, 3])
+            defs = [(f"dz{k}", rng.randrange(0, 200)) for k in range(ndef)]
+            pre = ["; c"] * rng.randrange(0, 4) + ["*=0x038000"] + [f".db dz{k}" for k in range(ndef) if rng.random() < 0.6] + ["nop"] * rng.randrange(0, 4)
+            text = "\n".join(pre + [stmt, "rts"]) + "\n"
+            pos = len(pre)
+            name = f"cli_zq_{i}.s"
+            rep_, data, announced, err = frontends.cli(text, run_.tmp, fmt=rng.choice([None, "ips", "sfc"]), defines=defs, name=name)
+            msg = (err.split("ERROR - ", 1)[1] if "ERROR - " in err else err).rstrip("\n")
+            if re.search(r"at\n.*?:\d+ ", msg, re.S):
+                res = {"status": "rejected", "exc": "NodeError", "error": msg}
+            else:
+                res = {"status": "rejected", "exc": None, "error": msg}
+            rep = real_report(res)
+            s4.cases += 1
+            s4.nontrivial.add((kind, ndef, pos))
+            s4.count(f"defines:{ndef}")
+            inp = {"file_text": text, "command": "x816 " + name + (" -D " + " ".join(f"{k}={v}" for k, v in defs) if defs else ""), "inserted": stmt, "at_line": pos}
+            if rep_.startswith("status 0"):
+                s4.violate(inp, "a located error", rep_, "the erroneous file is reported as assembled")
+            elif rep is None or rep[0] != how:
+                s4.violate(inp, (how, name, pos, stmt), (rep, err[-200:]), "the command line does not locate the error (or reports another kind)")
+            elif not str(rep[1]).endswith(name) or rep[2] != pos or rep[4] != stmt or (how == "scan" and rep[3] != col):
+                s4.violate(inp, (name, pos, col if how == "scan" else None, stmt), rep[1:], "file / line / column / quoted text reported by the command line differ from the statement in the user's file")
+        s4.sample({"command": "x816 cli_zq_0.s -D dz0=1 dz1=2"})
+        return [s, s2, s3, s4]
     finally:
         run_.close()
